@@ -3,9 +3,11 @@ import importlib
 
 _WORLD_MODULES = {
     "mux": "worlds.mux",
+    "memmap": "worlds.memmap",
 }
 PROPERTY_WORLD = {
     "C04": "mux", "C05": "mux",
+    "C02": "memmap", "C03": "memmap", "C18": "memmap",
 }
 _cache = {}
 
